@@ -126,7 +126,16 @@ Fixpoint build (r : recipe) (s : bstate) {struct r} : option err * bstate :=
         | FErr v x =>
           let '(o, s1) := build x s in
           match o with
-          | None => build_fmt rest acc s1      (* the generator never passes nil *)
+          | None =>
+            (* a nil interface argument: printArg prints <nil> for %v and the
+               bad-verb notation otherwise, in the surrounding (safe) mode *)
+            let t := match v with
+                     | VV | VPlusV => lit "<nil>"
+                     | VS => lit "%!s(<nil>)"
+                     | VW => lit "%!w(<nil>)"
+                     | VD => lit "%!d(<nil>)"
+                     end in
+            build_fmt rest (bf_add acc (PLit t) t) s1
           | Some e =>
             let piece := match v with VPlusV => nested_plus_v (sem e) | _ => nested_v (sem e) end in
             let pl := match v with VPlusV => (if lib_format e then fmt_plain_verbose e else error_text e)
